@@ -1054,6 +1054,8 @@ def model_compare(ctx, exp: Experiment, r, drv) -> None:
     acked_pos = sorted(pos_of[c] for c in tr.order if tr.calls[c]["status"] == "acked")
     model_acks = sorted(tl[n][1])
     ctx.count("model:compared")
+    if exp.kind == "manager" and not any(exp.kills):
+        causal_check(ctx, exp, tr, tables, it, toks, drv)
     if got not in preds:
         ctx.disagree(f"reopened content differs from the model's prediction at crash point {n}: "
                      f"implementation {got} vs model {preds} [{exp.label} {exp.kill}]", rep)
@@ -1062,6 +1064,49 @@ def model_compare(ctx, exp: Experiment, r, drv) -> None:
                      f"[{exp.label} {exp.kill}]", rep)
     elif len(cands) > 1 and preds[0] != preds[1]:
         ctx.count("kill_inside_primitive:" + ("took-effect" if got == preds[1] else "no-effect"))
+
+
+def causal_check(ctx, exp, tr, tables, it, toks, drv):
+    """hypothesis `Causal` of theorem rebuild_verifies, computed by the model (`causalCheck`, proved sound) on the
+    insert order observed from the real PseudonymManager: token → previous token (none for genesis), metadata → token,
+    attestation → metadata, resolved through the objects' hashes recomputed here from the bound values"""
+    import hashlib
+
+    def h(*hexes):
+        return hashlib.sha3_256(b"".join(bytes.fromhex(x) for x in hexes)).hexdigest()
+    by_hash, pend = {}, []
+    for cid in tr.order:
+        row = tr.calls[cid]["row"]
+        t = tables.get(row["table"]) if row else None
+        if row is None or t is None:
+            continue
+        d = dict(zip(row["cols"], row["vals"]))
+        if any(isinstance(v, str) and v.startswith("#") for v in d.values()):
+            ctx.count("causal:skipped-large-value")
+            return
+        me = (model_table_index(row["table"]), it.keys.get(row_key(row, t["pk"]), 0))
+        if row["table"] == "Tokens":
+            by_hash.setdefault(h(d["previous_token_hash"], d["content_hash"], d["signature"]), me)
+            dep = None if d["previous_token_hash"] == h(d["public_key"]) else d["previous_token_hash"]
+        elif row["table"] == "Metadata":
+            by_hash.setdefault(h(d["token_pointer"], d["serialized_json_dict"], d["signature"]), me)
+            dep = d["token_pointer"]
+        elif row["table"] == "Attestations":
+            dep = d["metadata_pointer"]
+        else:
+            continue
+        pend.append((me, dep))
+    deps = {}
+    for me, dep in pend:
+        if dep is not None:
+            deps.setdefault(me, by_hash.get(dep, (99, 0)))
+    line = "causal " + " ".join(f"d:{a[0]}.{a[1]}>{b[0]}.{b[1]}" for a, b in deps.items()) + " " + " ".join(toks)
+    rep = drv.ask(line)
+    ctx.count("causal:" + rep)
+    ctx.count("causal_deps:%d" % min(len(deps), 12))
+    if rep != "true":
+        ctx.disagree(f"hypothesis Causal of rebuild_verifies does not hold for the insert order the manager produced "
+                     f"({rep}) [{exp.label}]", {"experiment": exp.to_replay(), "line": line[:600]})
 
 
 def hypothesis_check(ctx, exp, r):
